@@ -260,6 +260,17 @@ def run_param(d):
             for a in (i, o):
                 for b in (i, o):
                     observed.append(complex(r.get_A(a, b)))
+    if not d.get("late_default"):
+        # ... and the ORIGINAL answers as before after its parts have been solved (split() hands out copies)
+        again = []
+        for kw in d["assign"]:
+            r = sol.solve(**dict(kw))
+            for (i, o) in ends:
+                for a in (i, o):
+                    for b in (i, o):
+                        again.append(complex(r.get_A(a, b)))
+        expected = expected + expected
+        observed = observed + again
     return expected, observed
 
 
